@@ -73,3 +73,185 @@ def r4(ctx):
             f.loc(),
         )
     ctx.floor(2)
+
+
+# ----------------------------------------------------------------------
+import re as _re
+
+from ..decision import NOTHING, Evaluator, Hooks, Sym
+from ..decision import vtext as _vtext
+from ..fsm import Extracted, FortranExtracted, explore_fortran, C_ALPHABET
+
+
+def _vt(v):
+    if isinstance(v, str):
+        return v
+    return _re.sub(r"@\d+", "", _vtext(v))
+
+
+@rule("C17.R1", "fortran_cleaner automaton x reference free-form scanner: counted lines and statement ends agree on every reachable well-formed state")
+def r1(ctx):
+    repo = ctx.repo
+    ex = FortranExtracted(repo)
+    seen, ntrans, disc = explore_fortran(ex)
+    ctx.stats.update({"product_states": len(seen), "product_transitions": ntrans, "cleaner_steps_interpreted": ex.steps, "exhaustive": True})
+    ctx.note(f"file_source:fortran_cleaner.process/dir_check: {len(seen)} product states, {ntrans} transitions")
+    by = {}
+    for kind, msg, tr, stack, rm in disc:
+        by.setdefault(f"file_source:fortran_cleaner:{kind}:top={stack[-1]}:ref={rm}", []).append((msg, tr, stack))
+    for key, items in sorted(by.items()):
+        msg, tr, stack = min(items, key=lambda x: len(x[1]))
+        ctx.violation(key, f"{msg}; shortest witness {tr!r} (mode stack {list(stack)}); {len(items)} reachable product states affected", ex.process.loc(), witness=tr)
+    ctx.ok("file_source:fortran_cleaner:product-explored", f"{len(seen)} states")
+    for st in sorted({s[0] for s in seen}):
+        ctx.ok(f"file_source:fortran_cleaner:stack:{'/'.join(st)}")
+    handled, pushed = ex.handled_modes(), ex.modes_pushed
+    for m in sorted(pushed - handled):
+        ctx.violation(f"file_source:fortran_cleaner:mode-without-arm:{m}", f"mode {m} can be entered but process() has no arm for it", ex.process.loc())
+    ctx.floor(8)
+
+
+class _FDriver(Hooks):
+    unroll = 1
+
+    def on_call(self, call, ftext, args, kwargs, st):
+        if ftext == "next":
+            return Sym("SRC")
+        if ftext == "len":
+            return Sym(f"len({_vt(args[0])})")
+        if ftext in ("it.islice", "itertools.islice"):
+            return Sym("SLICE(" + ", ".join(_vt(a) for a in args) + ")")
+        return NOTHING
+
+    def pure(self, ftext):
+        return not ftext.endswith(".physical_reset")
+
+
+@rule("C17.R1b", "per-line protocol of fortran_file_source: directives flush and pass through; statement text is cleaned, counted with the C pass's line numbers, and ended when not continued")
+def r1b(ctx):
+    repo = ctx.repo
+    f = repo.func("file_source", "fortran_file_source")
+    loops = [n for n in walk_no_nested(f.node) if isinstance(n, ast.While) and n.body and isinstance(n.body[0], ast.Assign) and u(n.body[0].value).startswith("next(")]
+    ctx.require(len(loops) == 1, "fortran_file_source: `while True: src_c_line = next(c_walker)` loop not found")
+    loop = loops[0]
+    paths = Evaluator(_FDriver()).paths(f.node, body=loop.body, params={"current_physical_start": Sym("CPS")})
+    ctx.note(f"{f.key}: {len(paths)} paths")
+    for p in paths:
+        a = {_re.sub(r"@\d+", "", k): v for k, v in p.atoms.items()}
+        isdir = next((v for k, v in a.items() if "'CPP_DIRECTIVE' Eq SRC.category" in k), None)
+        pblank = next((v for k, v in a.items() if "current_physical_line.category()" in k), None)
+        lblank = next((v for k, v in a.items() if "curr_line.category" in k), None)
+        cont = next((v for k, v in a.items() if "'CONTINUING_FROM_SOL' Eq cleaner.state[-1]" in k), None)
+        known = ("'CPP_DIRECTIVE' Eq SRC.category", "current_physical_line.category()", "curr_line.category", "'CONTINUING_FROM_SOL' Eq cleaner.state[-1]", "CPS Eq None", "None Eq CPS")
+        extra = [k for k in a if not any(x in k for x in known)]
+        key = f"file_source:fortran_file_source:line:directive={isdir},pblank={pblank},continuing={cont},lblank={lblank}"
+        if extra or isdir is None:
+            ctx.violation(key, f"the per-line protocol depends on {extra}: {p.describe()[:300]}", f.loc(loop))
+            continue
+        calls = [(e[1], tuple(_vt(x) for x in e[2:])) for e in p.effects if e[0] == "call"]
+        ys = [_vt(e[1]) for e in p.effects if e[0] == "yield"]
+        names = [c[0] for c in calls]
+        if isdir:
+            ok = (
+                names[:1] == ["curr_line.physical_update"] and calls[0][1] == ("SRC.current_physical_end",)
+                and "curr_line.physical_reset" in names and ys == ([] if lblank else ["curr_line"]) + ["SRC"]
+                and "cleaner.process" not in names and p.result[0] == "continue" and lblank is not None
+            )
+            ctx.check(ok, key, f"a preprocessor directive must first flush the pending statement text (yielded iff not blank), then be passed on itself, unconditionally: {p.describe()[:300]}", f.loc(loop))
+        else:
+            exp = ["current_physical_line.__init__", "cleaner.process"]
+            if pblank is False:
+                exp.append("curr_line.add_physical_lines")
+            exp.append("curr_line.join")
+            if cont is False:
+                exp += ["curr_line.physical_update", "curr_line.physical_reset"]
+            proc = [c for c in calls if c[0] == "cleaner.process"]
+            okp = len(proc) == 1 and proc[0][1] == ("SLICE(SRC.flushed_line, 0, len(SRC.flushed_line))",)
+            addl = [c for c in calls if c[0] == "curr_line.add_physical_lines"]
+            oka = all(c[1] == ("SRC.lines",) for c in addl)
+            oky = ys == (["curr_line"] if (cont is False and lblank is False) else [])
+            ok = names == exp and okp and oka and oky and pblank is not None and cont is not None
+            ctx.check(ok, key, f"statement text: clean the C pass's text, count its physical lines iff the cleaned text is not blank, join, and end the statement iff the cleaner is not continuing: steps {names}, yields {ys}; expected {exp}", f.loc(loop))
+    ctx.floor(6)
+
+
+@rule("C17.R2", "the C pass feeding the Fortran cleaner only recognises directive lines (no comment / quote handling at top level)")
+def r2(ctx):
+    repo = ctx.repo
+    f = repo.func("file_source", "fortran_file_source")
+    cw = [c for c in f.calls() if callee(c) == "c_file_source"]
+    ok = len(cw) == 1 and u(cw[0].args[0]) == f.params[0] and {k.arg: u(k.value) for k in cw[0].keywords}.get("directives_only") == "True"
+    ctx.check(ok, "file_source:fortran_file_source:c-pass-directives-only", f"the Fortran source must be fed by c_file_source(fp, directives_only=True): {[u(c) for c in cw]}", f.loc())
+    c = repo.func("file_source", "c_file_source")
+    mk = [x for x in c.calls() if callee(x) == "c_cleaner"]
+    ok = len(mk) == 1 and u(mk[0].args[1] if len(mk[0].args) > 1 else mk[0].keywords[0].value) == c.params[2]
+    ctx.check(ok, "file_source:c_file_source:passes-directives_only", "directives_only must reach the cleaner", c.loc())
+    ex = Extracted(repo, "c_cleaner")
+    for ch in C_ALPHABET:
+        for cat in ("BLANK", "SRC"):
+            st2, cat2, out, events, _vc, _dc = ex.step(("TOPLEVEL",), cat, ch, True)
+            key = f"file_source:c_cleaner:directives_only:TOPLEVEL:{ch!r}:{cat}"
+            if ch == "#" and cat == "BLANK":
+                ok = st2 == ("TOPLEVEL", "CPP_DIRECTIVE") and events == (("ns", "#"),)
+            elif ch == "\\":
+                ok = st2 == ("TOPLEVEL", "ESCAPING") and events == (("ns", "\\"),)
+            else:
+                ok = st2 == ("TOPLEVEL",) and out == "next" and len(events) == 1 and (events[0] == ("sp",) if ch == " " else events[0] == ("ns", ch))
+            ctx.check(ok, key, f"in directives-only mode Fortran text must pass through untouched (no comment or literal handling): {ch!r} -> stack {st2}, events {events}", ex.process.loc())
+    ctx.floor(10)
+
+
+@rule("C17.R3", "Fortran files go through the same directive parser; included files inherit the including file's language at every level")
+def r3(ctx):
+    repo = ctx.repo
+    ps = repo.cls("finder", "ParserState")
+    ins = ps.find_method("insert_file")
+    fnp, lp = ins.params[1], ins.params[2]
+
+    class H(Hooks):
+        def on_call(self, call, ftext, args, kwargs, st):
+            if ftext == "self._get_realpath":
+                return Sym("FN")
+            if ftext.endswith("FileParser"):
+                return Sym("PARSER")
+            return NOTHING
+
+    for p in Evaluator(H()).paths(ins.node):
+        a = p.atoms
+        new = a.get("FN In self.trees")
+        lang = a.get(lp)
+        key = f"finder:ParserState.insert_file:known={new},language-given={lang}"
+        stores = {e[1]: _vt(e[2]) for e in p.effects if e[0] == "store"}
+        if new:
+            ctx.check(not stores, key, "an already parsed file must not be parsed or re-registered again", ins.loc())
+            continue
+        extra = [k for k in a if k not in ("FN In self.trees", lp)]
+        okp = any(_vt(v).startswith("PARSER.parse_file(") and f"language={lp}" in _vt(v) for k, v in stores.items() if k == "self.trees[FN]")
+        if lang is True:
+            okl = stores.get("self.langs[FN]") == lp
+        elif lang is False:
+            okl = stores.get("self.langs[FN]") == "FileLanguage(FN).get_language()"
+        else:
+            okl = False
+        ctx.check(okp and okl and not extra, key, f"a new file must be parsed with the language it was given and THAT language recorded for its own includes (the extension decides only when no language is inherited): {stores}", ins.loc())
+    inc = repo.cls("preprocessor", "IncludeNode").find_method("evaluate_for_platform")
+    t = u(inc.node)
+    ok = "lang = kwargs['state'].langs[kwargs['filename']]" in t and "kwargs['state'].insert_file(include_file, lang)" in t
+    ctx.check(ok, "preprocessor:IncludeNode.evaluate_for_platform:passes-language", "the language recorded for the including file must be handed to insert_file", inc.loc())
+    pf = repo.func("file_parser", "FileParser.parse_file")
+    gs = [c for c in pf.calls() if callee(c) == "get_file_source"]
+    ok = len(gs) == 1 and [u(a) for a in gs[0].args] == ["filename", "language"]
+    ctx.check(ok, "file_parser:FileParser.parse_file:language-to-source", "the inherited language must select the line source", pf.loc())
+    g = repo.func("file_source", "get_file_source")
+    t = u(g.node)
+    ok = "if assumed_lang:\n        lang = assumed_lang" in t or _re.search(r"if assumed_lang:\s+lang = assumed_lang", t) is not None
+    ctx.check(ok, "file_source:get_file_source:assumed-language-wins", "an inherited language must override the extension", g.loc())
+    arms = {}
+    for n in walk_no_nested(g.node):
+        if isinstance(n, ast.If) and isinstance(n.test, ast.Compare) and dotted(n.test.left) == "lang":
+            r = [s.value for s in n.body if isinstance(s, ast.Return)]
+            if r:
+                arms[u(n.test.comparators[0])] = u(r[0])
+    ok = arms.get("'fortran-free'") == "fortran_file_source" and arms.get("['c', 'c++']") == "c_file_source"
+    ctx.check(ok, "file_source:get_file_source:arms", f"language -> source table: {arms}", g.loc())
+    ctx.floor(7)
